@@ -501,6 +501,16 @@ static std::string run_view(const std::vector<std::string> &ops) {
 }
 
 
+// seq-trim <w> <l|r|t> <off> <end|len> <units>: StringUtils::TrimLeft / TrimRight / Trim on an exact-size buffer
+template <typename C>
+static std::string run_trim(const std::string &v, U64 off, U64 e, const Vec &u) {
+    vh::ExactBuf<C> b(u);
+    if (v == "l") { if (off > e || e > b.n) throw Bad{}; SizeT o = SizeT(off); StringUtils::TrimLeft(static_cast<const C *>(b.p), o, SizeT(e)); return num(o); }
+    if (v == "r") { if (off > e || e > b.n) throw Bad{}; SizeT x = SizeT(e); StringUtils::TrimRight(static_cast<const C *>(b.p), SizeT(off), x); return num(x); }
+    if (v == "t") { if (off + e > b.n) throw Bad{}; SizeT o = SizeT(off), l = SizeT(e); StringUtils::Trim(static_cast<const C *>(b.p), o, l); return num(o) + " " + num(l); }
+    throw Bad{};
+}
+
 int main() {
 #ifdef QENTEM_VERIF
     const std::string policy = "x";
@@ -528,6 +538,13 @@ int main() {
                 else if (t[1] == "1") vh::emit(run_stream<char>(ops));
                 else if (t[1] == "2") vh::emit(run_stream<char16_t>(ops));
                 else if (t[1] == "4") vh::emit(run_stream<char32_t>(ops));
+                else vh::emit("bad-op");
+            } else if (t.size() == 6 && t[0] == "seq-trim") {
+                U64 off = 0, e = 0; Vec u;
+                if (!nat(t[3], off) || !nat(t[4], e) || !vh::parse_nats(t[5], u)) throw Bad{};
+                if (t[1] == "1") vh::emit(run_trim<char>(t[2], off, e, u));
+                else if (t[1] == "2") vh::emit(run_trim<char16_t>(t[2], off, e, u));
+                else if (t[1] == "4") vh::emit(run_trim<char32_t>(t[2], off, e, u));
                 else vh::emit("bad-op");
             } else if (t.size() == 3 && t[0] == "seq-view") {
                 auto ops = vh::split(t[2], ';');
